@@ -1,0 +1,16 @@
+//go:build verif
+
+package gitignore
+
+// VerifDowild exposes dowild (the wildmatch port) to the verification harness.
+func VerifDowild(p, text string, flags int) int { return dowild(p, text, flags) }
+
+// VerifPatternFields exposes the parsed form of a pattern built by
+// ParsePattern to the verification harness.
+func VerifPatternFields(p Pattern) (domain, segs []string, inclusion, dirOnly, isGlob, ok bool) {
+	pp, ok := p.(*pattern)
+	if !ok {
+		return nil, nil, false, false, false, false
+	}
+	return pp.domain, pp.pattern, pp.inclusion, pp.dirOnly, pp.isGlob, true
+}
